@@ -144,6 +144,14 @@ pub fn instance_items() -> Vec<Item> {
         category: "instance",
         has_resource: true,
     });
+    for (tag, handle) in [("inst{r:resource,f(own r)}", "(own $r)"), ("inst{r:resource,f()->own r}", ""), ("inst{r:resource,f(list<borrow r>)}", "(list (borrow $r))")] {
+        let wat = if handle.is_empty() {
+            "(instance (export \"r\" (type $r (sub resource))) (export \"f\" (func (result (own $r)))))".to_string()
+        } else {
+            format!("(instance (export \"r\" (type $r (sub resource))) (export \"f\" (func (param \"x\" {handle}))))")
+        };
+        v.push(Item { tag: tag.into(), wat, category: "instance", has_resource: true });
+    }
     v.push(Item {
         tag: "inst{r:resource,f(borrow r)}".into(),
         wat: "(instance (export \"r\" (type $r (sub resource))) (export \"f\" (func (param \"x\" (borrow $r)))))".into(),
@@ -173,6 +181,14 @@ pub fn component_items() -> Vec<Item> {
         it("component", "comp{imp v:u8}", "(component (import \"v\" (value u8)))"),
         it("component", "comp{imp v:string}", "(component (import \"v\" (value string)))"),
         it("component", "comp{exp v:u8}", "(component (export \"v\" (value u8)))"),
+        // resources inside an imported instance: component-level subtyping maps the abstract
+        // resources of the two sides onto each other, so the reference verdict is meaningful here
+        it("component", "comp{imp i:inst{r}}", "(component (import \"i\" (instance (export \"r\" (type (sub resource))))))"),
+        it("component", "comp{imp i:inst{r,f(own r)}}", "(component (import \"i\" (instance (export \"r\" (type $r (sub resource))) (export \"f\" (func (param \"x\" (own $r)))))))"),
+        it("component", "comp{imp i:inst{r,f(borrow r)}}", "(component (import \"i\" (instance (export \"r\" (type $r (sub resource))) (export \"f\" (func (param \"x\" (borrow $r)))))))"),
+        it("component", "comp{imp i:inst{r,f()->own r}}", "(component (import \"i\" (instance (export \"r\" (type $r (sub resource))) (export \"f\" (func (result (own $r)))))))"),
+        it("component", "comp{imp i:inst{r,f(list<borrow r>)}}", "(component (import \"i\" (instance (export \"r\" (type $r (sub resource))) (export \"f\" (func (param \"x\" (list (borrow $r))))))))"),
+        it("component", "comp{imp i:inst{r,f(list<own r>)}}", "(component (import \"i\" (instance (export \"r\" (type $r (sub resource))) (export \"f\" (func (param \"x\" (list (own $r))))))))"),
     ]
 }
 
